@@ -172,6 +172,7 @@ def run(ctx):
             ctx.check(gated, 'R01.1', key, b.where(bi), b.path, 'a candidate is pushed into the result without passing the FK cross-check against the requested pose: ' + why,
                       found=show(elem, maxdepth=3), detail='gated, tolerances %s' % (tols,))
             if gated:
+                _no_write_after_gate_read(ctx, b, fwd, elem, bi, key)
                 ctx.check(all(tol_ok(x) for x in tols), 'R01.2', key, b.where(bi), b.path,
                           'gate tolerances must be within the stated accuracy (0 < tol <= 1e-6)', found=tols, expected='<= 1e-6', detail=str(tols))
     ctx.floor('R01.1 push sites', n_push, 3)
@@ -300,6 +301,33 @@ def _finiteness(ctx, prog, b, nslots):
         ok = good and covered == nslots
         msg = 'flag cleared on !is_finite(candidate[ji]) for ji in 0..%s (needs 0..%d)' % (covered, nslots)
     ctx.check(ok, 'R01.4', name + '/finite-slots', b.where(bi), b.path, 'not every angle slot is checked for finiteness before the candidate is accepted: ' + msg, detail=msg)
+
+
+def _no_write_after_gate_read(ctx, b, fwd, elem, push_bi, key):
+    """R01.1b: the vector that is pushed is the vector forward() was evaluated on - no store into the candidate on any path
+    from the forward() call to the push (a re-verification computed *before* the last adjustment verifies a stale value)."""
+    root = elem
+    while isinstance(root, tuple) and root[0] in ('idx', 'fld', 'ref', 'deref', 'mutb'):
+        root = root[1] if root[0] != 'mutb' else root[-1]
+    if not (isinstance(root, tuple) and root[0] == 'var'):
+        return
+    cand = root[2]
+    calls = [(bi2, t2) for bi2, t2 in b.calls() if t2['callee'].get('resolved') == fwd and mir.contains(b.op_term(t2['args'][1], (bi2, None)), lambda x: x == root)]
+    bad = []
+    for fbi, ft in calls:
+        if not b.reaches(fbi, push_bi):
+            continue
+        nxt = ft.get('target')
+        for i, j, st in b.stmts():
+            if st['lhs']['local'] != cand:
+                continue
+            if i == fbi:
+                continue                      # statements of the call's own block run before the call
+            if nxt is not None and b.reaches(nxt, i, avoid=(fbi,)) and b.reaches(i, push_bi, avoid=(fbi,)):
+                bad.append(b.where(i, j))
+    ctx.check(not bad, 'R01.1', key + '/fresh', b.where(push_bi), b.path,
+              'the candidate is modified between the forward() evaluation that verifies it and the push (%s): the verified value is not the returned one' % ', '.join(sorted(set(bad))),
+              found=', '.join(sorted(set(bad))), detail='no store into the candidate between forward() and push')
 
 
 def _post_gate_writes(ctx, prog, methods):
